@@ -482,6 +482,24 @@ impl HotTier {
         k: usize,
         cancelled: Option<&AtomicBool>,
     ) -> Vec<(u64, f32)> {
+        self.knn_search_with_coherence_cancel(query, k, cancelled)
+            .into_iter()
+            .map(|(doc_id, distance, _)| (doc_id, distance))
+            .collect()
+    }
+
+    /// k-NN search that also returns, for every candidate, the coherence token of the very
+    /// mirror entry its distance was computed from (read under the same guard as the scan).
+    ///
+    /// Callers validate candidates against the canonical store after the scan; validating
+    /// whatever entry is mirrored at THAT later moment would pair a distance computed from a
+    /// replaced entry with the token of its replacement.
+    pub fn knn_search_with_coherence_cancel(
+        &self,
+        query: &[f32],
+        k: usize,
+        cancelled: Option<&AtomicBool>,
+    ) -> Vec<(u64, f32, VectorCoherenceToken)> {
         if k == 0 {
             return Vec::new();
         }
@@ -561,7 +579,9 @@ impl HotTier {
 
         let mut top = Vec::with_capacity(top_heap.len());
         while let Some(item) = top_heap.pop() {
-            top.push((item.doc_id, item.distance));
+            if let Some(doc) = docs.get(&item.doc_id) {
+                top.push((item.doc_id, item.distance, doc.coherence));
+            }
         }
         top.sort_by(|a, b| a.1.total_cmp(&b.1).then_with(|| a.0.cmp(&b.0)));
         top
